@@ -202,6 +202,32 @@ def evalElems (c : EvalCfg) (k : Nat) (env : Env) : List Elem → M (List Value)
     (evalElem c k env e).andThen fun v =>
     (evalElems c k env es).andThen fun vs => M.ret (v :: vs)
 
+/-- operands of `try_join!`, in order, up to the first one whose output is not a success: the payloads of all of
+    them, or that output (the operands behind it are not evaluated) -/
+def evalElemsTry (c : EvalCfg) (k : Nat) (env : Env) : List Elem → M (Except Value (List Value))
+  | [] => M.ret (.ok [])
+  | e :: es =>
+    (evalElem c k env e).andThen fun v =>
+    match v with
+    | .succ p => (evalElemsTry c k env es).andThen fun r => M.ret (r.map (p :: ·))
+    | f => M.ret (.error f)
+
+/-- the join expression of a step -/
+def evalJoinForm (c : EvalCfg) (k : Nat) (env : Env) (form : JoinForm) (elems : List Elem) : M Value :=
+  match form with
+  | .tuple => (evalElems c k env elems).andThen fun vs => M.ret (mkTuple vs)
+  | .call _ =>
+    (evalElems c k env elems).andThen fun vs =>
+    (M.tell [.ev (.joiner k vs)]).andThen fun _ => M.lift (c.σ.joiner k vs).toRes
+  -- `futures::join!(e₁, …, eₙ)`: awaits all operands, yields the tuple of their outputs
+  | .futJoin _ false => (evalElems c k env elems).andThen fun vs => M.ret (mkTuple vs)
+  -- `futures::try_join!(e₁, …, eₙ)`: `Ok` of the tuple of payloads, or the first failure
+  | .futJoin _ true =>
+    (evalElemsTry c k env elems).andThen fun r =>
+    M.ret (match r with | .ok ps => .succ (mkTuple ps) | .error f => f)
+  -- a single operand, awaited
+  | .awaitCat => (evalElems c k env elems).andThen fun vs => M.ret (mkTuple vs)
+
 def projVal (p : Proj) (v : Value) : Option Value :=
   match p with
   | .whole => some v
@@ -225,15 +251,7 @@ def evalStep (c : EvalCfg) (env : Env) (s : StepCode) : M (Env × Value) :=
   -- `let __jB = __tb(arg);` only builds thread builders: no event, cannot fail
   let envb : Env := (s.tbs.map fun (b, arg) => (Var.j b, Value.builder arg)).reverse ++ env
   (evalDefs c s.k s.defs envb).andThen fun env' =>
-  (evalElems c s.k env' s.elems).andThen fun vs =>
-  (match s.form with
-    | .tuple => M.ret (mkTuple vs)
-    | .call _ => (M.tell [.ev (.joiner s.k vs)]).andThen fun _ => M.lift (c.σ.joiner s.k vs).toRes
-    -- `futures::join!(e₁, …, eₙ)`: awaits all operands, yields the tuple of their outputs
-    | .futJoin _ false => M.ret (mkTuple vs)
-    | .futJoin _ true => M.stuck
-    -- a single operand, awaited
-    | .awaitCat => M.ret (mkTuple vs)).andThen fun sr =>
+  (evalJoinForm c s.k env' s.form s.elems).andThen fun sr =>
   match s.spawnJoin with
   | none => M.ret (env', sr)
   | some ps => (evalJoins s.k sr (s.elems.map Elem.b) ps).andThen fun vs' => M.ret (env', mkTuple vs')
